@@ -127,6 +127,26 @@ def make_pair(seedval: int):
     return left, right, ml, mr
 
 
+PAIR_VERSION = 3  # part of the pristine cache key: bump whenever the pairs built from a seed change
+
+
+def make_datasets(seedval: int, pipe_idx=None):
+    """the caller's two image datasets for a pair seed.  Seeds 1003 (NaN) and 1015 (inf) use a non-finite no-data convention, as a
+    caller building datasets by hand may: the no-data pixels of the mask hold NaN (or inf) and `no_data_img` says so."""
+    left, right, ml, mr = make_pair(seedval)
+    l, r = drive.make_inputs(left, right, (-3, 2), ml, mr)
+    if seedval >= 1000 and seedval % 4 == 3:
+        nd = np.nan if seedval % 8 == 3 else np.inf
+        # sad / ssd derive their maximal cost from the raw samples and need them finite (observed precondition:
+        # int(nan) in compute_cost_volume): there only the attribute announces the convention
+        meas = PIPELINES[pipe_idx][0][1]["matching_cost_method"] if pipe_idx is not None else None
+        if meas in ("census", "zncc"):
+            l["im"].data[ml == 1] = nd
+        l.attrs["no_data_img"] = nd
+        r.attrs["no_data_img"] = nd
+    return l, r
+
+
 def product_hash(*datasets, only=None) -> str:
     h = hashlib.sha256()
     for ds in datasets:
@@ -154,8 +174,7 @@ def run_case(pipe_idx: int, pair_seed: int, machine=None, do_check=True, checked
     """-> (hash of all products, hash of disparity + pre-validation flags, input diff, checked cfg)"""
     from pandora.state_machine import PandoraMachine
 
-    left, right, ml, mr = make_pair(pair_seed)
-    l, r = drive.make_inputs(left, right, (-3, 2), ml, mr)
+    l, r = make_datasets(pair_seed, pipe_idx)
     lb, rb = build.snapshot(l), build.snapshot(r)
     m = machine or PandoraMachine()
     pipe = gen.pipe_dict(PIPELINES[pipe_idx])
@@ -186,7 +205,7 @@ def run_case(pipe_idx: int, pair_seed: int, machine=None, do_check=True, checked
 def pristine_hash(pidx: int, pseed: int) -> str:
     root = os.path.join(env.VERIF_DIR, ".work", "c18ref", env.tree_hash() + "-" + os.environ.get("PANDORA_NUMBA_PARALLEL", "True"))
     os.makedirs(root, exist_ok=True)
-    path = os.path.join(root, f"{pidx}-{pseed}-{digest(PIPELINES[pidx])[:10]}.json")
+    path = os.path.join(root, f"{pidx}-{pseed}-{digest(PIPELINES[pidx])[:10]}-v{PAIR_VERSION}.json")
     if not os.path.exists(path):
         cases = path + f".{os.getpid()}.cases"
         out = path + f".{os.getpid()}.out"
@@ -222,7 +241,7 @@ def replay_history(ctx: Ctx, p: dict) -> None:
             continue
         s = slots[slot]
         if op == "check":
-            l, r = drive.make_inputs(*make_pair(pseed)[:2], (-3, 2), *make_pair(pseed)[2:])
+            l, r = make_datasets(pseed, s["pipe"])
             s["checked"] = drive.check_pipeline(s["machine"], gen.pipe_dict(PIPELINES[s["pipe"]]), l, r)
         elif op == "run":
             if s["checked"] is None:
@@ -259,7 +278,8 @@ def replay_history(ctx: Ctx, p: dict) -> None:
             if a[0] == b[0] == "run" and a[1] == b[1] and a[3] == b[3] and any(o[1] != a[1] for o in ops[i + 1:j]):
                 nt = True
     ctx.judged += len(runs)
-    ctx.case(p, nontrivial=nt, classes=[f"runs={min(len(runs), 5)}"])
+    ctx.case(p, nontrivial=nt, classes=[f"runs={min(len(runs), 5)}"] +
+             (["non-finite-no-data-convention"] if any(o[0] == "run" and o[3] >= 1000 for o in p["ops"]) else []))
 
 
 def history_runner(ctx: Ctx, tier, seed_val, shard, nshards, n):
@@ -275,7 +295,7 @@ def history_runner(ctx: Ctx, tier, seed_val, shard, nshards, n):
             self.ops = []
             self.sub = Ctx(prop=ctx.prop, check=ctx.check, tier=ctx.tier, known=ctx.known)
 
-        @initialize(p=st.integers(0, len(PIPELINES) - 1), q=st.integers(0, len(PIPELINES) - 1), pair=st.sampled_from([0, 5]))
+        @initialize(p=st.integers(0, len(PIPELINES) - 1), q=st.integers(0, len(PIPELINES) - 1), pair=st.sampled_from([0, 5, 1003, 1015]))
         def first(self, p, q, pair):
             self.ops += [["new", 0, p, 0], ["check", 0, 0, pair], ["new", 1, q, 0], ["check", 1, 0, pair], ["run", 0, 0, pair]]
             self.live = {0, 1}
@@ -287,20 +307,20 @@ def history_runner(ctx: Ctx, tier, seed_val, shard, nshards, n):
             self.live.add(slot)
             self.checked.discard(slot)
 
-        @rule(k=st.integers(0, 5), pair=st.sampled_from([0, 5]))
+        @rule(k=st.integers(0, 5), pair=st.sampled_from([0, 5, 1003, 1015]))
         def check(self, k, pair):
             slot = sorted(self.live)[k % len(self.live)]
             self.ops.append(["check", slot, 0, pair])
             self.checked.add(slot)
 
-        @rule(k=st.integers(0, 5), pair=st.sampled_from([0, 5]))
+        @rule(k=st.integers(0, 5), pair=st.sampled_from([0, 5, 1003, 1015]))
         def run(self, k, pair):
             if not self.checked:
                 return
             slot = sorted(self.checked)[k % len(self.checked)]
             self.ops.append(["run", slot, 0, pair])
 
-        @rule(k=st.integers(0, 5), pair=st.sampled_from([0, 5]))
+        @rule(k=st.integers(0, 5), pair=st.sampled_from([0, 5, 1003, 1015]))
         def run_again(self, k, pair):
             runs = [o for o in self.ops if o[0] == "run"]
             if runs:
@@ -470,9 +490,9 @@ def enumerate_orders(tier, shard, nshards):
     """every pipeline of the table once as the FIRST thing a process does, followed by all the others (rotated, so that
     every ordered pair 'i ran before j' occurs), each on its own machine object, then the first one again"""
     n = len(PIPELINES)
-    variants = [(i, 0, 1) for i in range(n)]
+    variants = [(i, 0, 1) for i in range(n)] + [(i, 1003, 1) for i in range(0, n, 2)]
     if tier != "quick":
-        variants += [(i, 5, 1) for i in range(n)] + [(i, 0, -1) for i in range(n)] + [(i, 5, -1) for i in range(n)]
+        variants += [(i, 1015, -1) for i in range(n)] + [(i, 5, 1) for i in range(n)] + [(i, 0, -1) for i in range(n)] + [(i, 5, -1) for i in range(n)]
     for k, (i, pair, direction) in enumerate(variants):
         if k % nshards != shard:
             continue
